@@ -88,6 +88,7 @@ ZoneOK(a) ==
 FieldsOK(a) ==
     /\ a.style \in Formats /\ a.Y \in 1970..9999 /\ a.M \in 1..12 /\ a.D >= 1 /\ a.D <= DaysInMonth(a.Y, a.M)
     /\ a.hh \in 0..23 /\ a.mm \in 0..59 /\ a.ss \in 0..59
+    /\ a.nowd \in {0, 1} /\ (a.nowd = 1 => a.style = "rfc822")
     /\ IF a.dateonly = 1
        THEN a.style # "rfc822" /\ a.hh = 0 /\ a.mm = 0 /\ a.ss = 0 /\ a.fsep = 0 /\ a.frac = <<>> /\ a.zlit = <<>> /\ a.zsign = 0
        ELSE /\ ZoneOK(a)
@@ -95,8 +96,10 @@ FieldsOK(a) ==
                ELSE a.style # "rfc822" /\ a.fsep \in {46, 44} /\ a.frac # <<>> /\ \A i \in 1..Len(a.frac) : a.frac[i] >= 48 /\ a.frac[i] <= 57
 ZoneText(a) == IF a.zsign = 0 THEN a.zlit
                ELSE <<IF a.zsign = 1 THEN 43 ELSE 45>> \o Dig2(a.zh) \o (IF a.zcolon = 1 THEN <<58>> ELSE <<>>) \o Dig2(a.zm)
+(* RFC 822 makes the week day optional: nowd = 1 renders "12 Oct 2000 ..." instead of "Thu, 12 Oct 2000 ..." *)
+DateTextOf(a) == LET t == DateText(a.style, a.Y, a.M, a.D) IN IF a.nowd = 1 THEN SubSeq(t, 6, Len(t)) ELSE t
 Render(a) ==
-    DateText(a.style, a.Y, a.M, a.D) \o
+    DateTextOf(a) \o
     (IF a.dateonly = 1 THEN <<>>
      ELSE TimeText(a.style, a.hh, a.mm, a.ss) \o (IF a.fsep = 0 THEN <<>> ELSE <<a.fsep>> \o a.frac)
           \o (IF a.style = "rfc822" THEN <<32>> ELSE <<>>) \o ZoneText(a))
